@@ -79,7 +79,8 @@ class SymSpec(object):
         return arr
 
     def arraynd(self, name, kind, shape):
-        elem = {"i": "int", "f": "real", "b": "bool", "O": "str"}[kind]
+        elem = {"i": "int", "I": "int", "f": "real", "b": "bool", "O": "str"}[kind]
+        kind = "i" if kind == "I" else kind
         srt = {"int": z3.IntSort(), "real": z3.RealSort(), "bool": z3.BoolSort(), "str": z3.IntSort()}[elem]
         if len(shape) == 0:
             c = z3.Const(name, srt)
@@ -153,6 +154,26 @@ class SymSpec(object):
             return a % m
         return mkint(to_z3(a) % m)
 
+    def div(self, a, m):
+        """floor(a / m) for a concrete positive m"""
+        assert isinstance(m, int) and m > 0
+        if isinstance(a, int):
+            return a // m
+        return mkint(to_z3(a) / m)
+
+    def forall_nd(self, shape, body):
+        """AND over the index box of `shape`"""
+        w = lambda i: mkint(i) if not isinstance(i, int) else i
+        return mkbool(symnp._forall_nd(tuple(symnp._z(s) for s in shape), lambda *ix: to_z3(body(*[w(i) for i in ix]))))
+
+    def mask_positions(self, mask):
+        """strictly increasing enumeration of the true positions (the library's own definition)"""
+        return symnp.mask_positions(mask)
+
+    def calls(self, contract_name):
+        """results of the callee contracts used on this path: [(case, env, result)]"""
+        return [c for c in self.ctx.calls if c[0] == contract_name]
+
     # -- arrays ---------------------------------------------------------------
     def at(self, arr, *idx):
         return symnp._wrap_elem(arr.at(*idx), arr.elem)
@@ -168,6 +189,16 @@ class SymSpec(object):
 
     def kind(self, arr):
         return arr.kind
+
+    def snapshot(self, arr):
+        """frozen copy of an array's current content (for old(.) in postconditions)"""
+        return symnp.ndarray.from_fn(arr.snapshot(), arr._shape, arr.kind, arr.elem)
+
+    def concrete_array(self, data):
+        return symnp.asarray(data)
+
+    def is_dimarray(self, x):
+        return isinstance(x, self.da.DimArray)
 
     def is_none(self, x):
         return x is None
